@@ -27,6 +27,11 @@ func Advance(d time.Duration) {
 	}
 }
 
+// Jump sets the clock to ns, forwards or backwards (a stepped wall clock), without touching the read counter.
+//
+//go:norace
+func Jump(ns int64) { nowNs = ns }
+
 // NowNs returns the simulated time in nanoseconds since the Unix epoch.
 //
 //go:norace
